@@ -225,7 +225,7 @@ def gen_c11_many(rng, tier):
     units = ['<getProperties/>', '<enableBLOB device="A">Sometimes</enableBLOB>', '<newSwitchVector device="A" name="P"><oneSwitch name="e">Maybe</oneSwitch></newSwitchVector>']
     tail = '<message device="D" message="after"/>\n'
     for unit in units:
-        for count in ([300, 1500, 4000] if tier == "thorough" else [1500]):
+        for count in (([300, 1500, 4000] if len(unit) < 20 else [300, 1500]) if tier == "thorough" else [1500]):
             n = len(unit) * count
             for T in ([16, 2048, None] if tier == "thorough" else [2048, None]):
                 yield {"op": "bufmany", "unit": unit, "count": count, "tail": tail, "threshold": T, "cuts": []}
